@@ -5,6 +5,7 @@ import src.exon_corrector as exon_corrector
 import src.illumina_exon_corrector as illumina
 import src.assignment_io as assignment_io
 import src.common as common
+import src.isoform_assignment as ia
 import src.transcript_printer as transcript_printer
 
 from props import readfam
@@ -82,6 +83,16 @@ def h_correct(locus, tid, i, j, preset, shape, strategy=None):
             cut = g.int("inner_exon_cut", 1, 40)
             read = [read[0], (read[1][0] + cut, read[1][1])] + read[2:]
             g.add(read[1][0] + 5 <= read[1][1])
+        elif shape in ("misplaced_last", "misplaced_first") and len(read) >= 3:
+            # the terminal exon aligned 60-200 bp further out, with (almost) its annotated length: the assigner calls it a misaligned terminal exon
+            off, dl = g.int("terminal_exon_offset", 60, 200), g.int("terminal_exon_length_difference", -8, 8)
+            if shape == "misplaced_last":
+                a_ = exons[-1][0] + off
+                read = read[:-1] + [(a_, a_ + (exons[-1][1] - exons[-1][0]) + dl)]
+            else:
+                b_ = exons[0][1] - off
+                read = [(b_ - (exons[0][1] - exons[0][0]) - dl, b_)] + read[1:]
+                g.add(read[0][0] >= 1)
         elif shape == "two_novel_inner" and len(read) >= 2:
             # two novel exons inside the first intron: three read introns against one isoform intron
             a0, b0 = exons[0][1] + 1, exons[1][0] - 1
@@ -107,9 +118,15 @@ def h_correct(locus, tid, i, j, preset, shape, strategy=None):
             rec = parse_bed(g, pr.output_file.getvalue())
             check_bed12(g, rec, out if corrected else read, "corrected" if corrected else "original")
         g.check(sorted_disjoint(out, gap=2) if len(out) > 1 else (out[0][0] <= out[0][1]), "corrected exons ascending, separated by introns")
-        term = OR(flags["correct_terminal_exons"], flags["correct_fake_terminal_exons"])
+        MES_ = ia.MatchEventSubtype
+        evs = [e.event_type for m_ in ra.isoform_matches for e in m_.match_subclassifications]
+        has_fake = any(e in (MES_.fake_terminal_exon_left, MES_.fake_terminal_exon_right) for e in evs)
+        has_misplaced = any(e in (MES_.terminal_exon_misalignment_left, MES_.terminal_exon_misalignment_right) for e in evs)
+        # a terminal-exon correction "applies" when its flag is on AND the assigner reported the matching event for this read
+        term = OR(AND(flags["correct_terminal_exons"], has_misplaced), AND(flags["correct_fake_terminal_exons"], has_fake))
         g.check(IMPLIES(NOT(term), AND(out[0][0] == read[0][0], out[-1][1] == read[-1][1])),
-                "start and end unchanged unless a terminal-exon correction is enabled")
+                "start and end unchanged unless a terminal-exon correction that the strategy enables applies to the read",
+                detail={"events": [e.name for e in evs], "flags": {k_: bool(v_) if isinstance(v_, bool) else str(v_) for k_, v_ in flags.items()}})
         all_off = AND([NOT(flags[f]) for f in FLAGS])
         same = len(out) == len(read) and AND([AND(a[0] == b[0], a[1] == b[1]) for a, b in zip(out, read)])
         g.check(IMPLIES(all_off, same), "with every correction disabled the corrected alignment equals the input")
@@ -126,6 +143,39 @@ def h_correct(locus, tid, i, j, preset, shape, strategy=None):
             okr = OR([r == x for x in own_r] + [AND(r == a[1], OR([AND(abs_le(a[0] - q[0], d), abs_le(a[1] - q[1], d)) for q in ri] or [False])) for a in ann] +
                      [r == a[1] for a in iso])
             g.check(AND(okl, okr), "every corrected splice site is the read's own, an annotated site within delta, or the assigned isoform's")
+    return fn
+
+
+def h_correct_history(locus, tid, preset, strategy):
+    """two reads of one locus through ONE ExonCorrector (process_genic builds one per locus): the corrected alignment of the second
+    read equals what a fresh corrector gives"""
+    def fn(g):
+        shims.CURRENT["g"] = g if g.symbolic else None
+        params = readfam.matching_params(preset, strategy)
+        gi = build_locus(locus, params.delta)
+        exons = gi.all_isoforms_exons[tid]
+        d = params.delta
+        second = positive_read(g, exons, 0, len(exons) - 1, d)
+        g.add(AND(second[0][0] == exons[0][0], second[-1][1] == exons[-1][1]))
+        # the first read: same isoform, the first donor at another offset within delta
+        j1 = g.int("first_read_donor_jitter", -d, d)
+        first = [(exons[0][0], exons[0][1] + j1)] + [tuple(x) for x in exons[1:]]
+        errs = {}
+
+        def info(read, tag):
+            prof, ra = assign(g, gi, params, read)
+            errs[tag] = (g.int("%s_indel_count" % tag, 0, 2), g.int("%s_mismatch_count" % tag, 0, 3))
+            return Obj(read_exons=list(read), read_start=read[0][0], read_end=read[-1][1], combined_profile=prof,
+                       get_error_count=lambda *a, **k: errs[tag]), ra
+        corr = exon_corrector.ExonCorrector(gi, params, None)
+        ai1, ra1 = info(first, "first")
+        call(g, corr.correct_assigned_read, ai1, ra1)
+        ai2, ra2 = info(second, "second")
+        out = call(g, corr.correct_assigned_read, ai2, ra2)
+        fresh = call(g, exon_corrector.ExonCorrector(gi, params, None).correct_assigned_read, ai2, ra2)
+        g.check(len(out) == len(fresh) and AND([AND(a[0] == b[0], a[1] == b[1]) for a, b in zip(out, fresh)]),
+                "the corrected alignment of a read does not depend on the reads corrected before it",
+                detail={"after_another_read": str(out), "fresh": str(fresh)})
     return fn
 
 
@@ -187,7 +237,8 @@ def instances(tier, seed):
                 if n < 2:
                     continue
                 shapes = ["follow"] + (["two_novel_inner"] if (not q or (locus, tid) == ("skip", "T2")) else []) + \
-                    (["drop_inner", "short_inner"] if n >= 3 else [])
+                    (["drop_inner", "short_inner"] if n >= 3 else []) + \
+                    (["misplaced_last", "misplaced_first"] if n >= 3 and (not q or (locus, tid) == ("skip", "T1")) else [])
                 for si, shape in enumerate(shapes):
                     for strategy in ([["none", "default_ont"][(seed + li + ti + si) % 2], "all"] if q else strategies):
                         out.append(Instance("correct[%s,%s,%s,%s,%s]" % (locus, tid, shape, preset, strategy),
@@ -199,6 +250,11 @@ def instances(tier, seed):
                                             h_correct(locus, tid, 0, n - 1, preset, shape, None), F,
                                             "locus %s, read %s %s, 6 symbolic correction flags (every combination)" % (locus, shape, tid),
                                             weight=500 * n, budget_s=3600))
+    for locus, tid in ([("skip", "T1")] if q else [(l, LOCI[l][0][0]) for l in sorted(LOCI) if len(LOCI[l][0][3]) > 1]):
+        for strategy in (["default_ont"] if q else ["default_ont", "all"]):
+            out.append(Instance("corrector_history[%s,%s,%s]" % (locus, tid, strategy), h_correct_history(locus, tid, "default", strategy), F[:3],
+                                "locus %s: two reads of %s with different junction offsets and error counts through one corrector" % (locus, tid),
+                                weight=80, budget_s=900))
     for ne, ns in ([(2, 1), (2, 2), (3, 1)] if q else [(2, 0), (2, 1), (2, 2), (3, 1), (3, 2), (2, 3)]):
         out.append(Instance("illumina[exons=%d,short=%d]" % (ne, ns), h_illumina(ne, ns), ["src.illumina_exon_corrector:IlluminaExonCorrector.correct_exons",
                                                                                           "src.common:get_exons"],
